@@ -12,7 +12,8 @@
 (***************************************************************************)
 EXTENDS Dremel, TLC
 
-CONSTANTS Depth,      \* maximal nesting depth of group nodes above a leaf
+CONSTANTS MaxVals,    \* only schemas with at most this many values are explored
+          Depth,      \* maximal nesting depth of group nodes above a leaf
           MaxLen,     \* maximal list length
           WideDepth,  \* two-field structs are built over children of depth < WideDepth only
           RowBudget   \* a second row is appended only for schemas with at most this many values
@@ -39,13 +40,23 @@ Values(s) ==
                          ELSE {Rcd(<<a, b>>) : a \in Values(s.c[1]), b \in Values(s.c[2])}
     [] s.k = "list"   -> {Lst(c) : c \in SeqsUpTo(Values(s.c[1]), MaxLen)}
 
+(* the number of values of a schema, by arithmetic (no set is built)        *)
+RECURSIVE NVals(_), Pow(_, _)
+Pow(x, k) == IF k = 0 THEN 1 ELSE x * Pow(x, k - 1)
+NVals(sc) ==
+  (IF sc.opt THEN 1 ELSE 0) +
+  CASE sc.k = "leaf"   -> Cardinality(Alphabet)
+    [] sc.k = "struct" -> IF Len(sc.c) = 1 THEN NVals(sc.c[1]) ELSE NVals(sc.c[1]) * NVals(sc.c[2])
+    [] sc.k = "list"   -> LET n == NVals(sc.c[1]) IN
+                          IF n > 1000 THEN 1000000 ELSE LET F[k \in 0..MaxLen] == IF k = 0 THEN 1 ELSE F[k - 1] + Pow(n, k) IN F[MaxLen]
+
 VARIABLES s, rows
 vars == <<s, rows>>
 
-Init == s \in Schemas(Depth) /\ rows = <<>>
+Init == s \in {x \in Schemas(Depth) : NVals(x) <= MaxVals} /\ rows = <<>>
 
 AddRow ==
-  /\ Len(rows) = 0 \/ (Len(rows) = 1 /\ Cardinality(Values(s)) <= RowBudget)
+  /\ Len(rows) = 0 \/ (Len(rows) = 1 /\ NVals(s) <= RowBudget)
   /\ \E v \in Values(s) : rows' = Append(rows, v)
   /\ UNCHANGED s
 
@@ -55,9 +66,11 @@ Spec == Init /\ [][Next]_vars
 Typed == \A i \in 1..Len(rows) : WellTyped(s, rows[i])
 ThmRoundTrip == RoundTrip(s, rows)
 ThmLevels == LevelsSound(s, rows)
+(* the arithmetic count is the size of the universe                         *)
+ThmCount == (rows = <<>> /\ NVals(s) <= 300) => Cardinality(Values(s)) = NVals(s)
 (* distinct columns have distinct shreddings (follows from the round trip; *)
 (* stated on its own for the one-row columns of small schemas)             *)
 ThmInjective ==
-  (Len(rows) = 1 /\ Cardinality(Values(s)) <= 40) =>
+  (Len(rows) = 1 /\ NVals(s) <= 40) =>
      \A w \in Values(s) : (Shred(s, <<w>>) = Shred(s, rows)) => w = rows[1]
 =============================================================================
